@@ -644,6 +644,13 @@ fn cmd_check(args: &Args) -> i32 {
             }
         }
         let (f, mut repro) = chosen.expect("class has at least one occurrence");
+        // "fails alone on a fresh thread" may be a lie told by state the whole process shares
+        // (a global lock poisoned by an injected sink panic, say): before a replay file is
+        // written, the reproduction is confirmed in a fresh process
+        if repro.reproducible && !sim::history_fails_in_child(&repro.history, &repro.plan, class) {
+            repro.reproducible = false;
+            repro.note = "the violation reproduces in this process but not when the recorded runs are executed in a fresh process: the code under test keeps process-wide state that earlier runs had already changed".into();
+        }
         if !repro.reproducible && triage_started.elapsed().as_secs() < 240 {
             // state shared between threads: only a fresh single-threaded process is a fresh start
             let quick_runs = runs.min(default_budget(prop, false).0);
